@@ -60,7 +60,9 @@ func (rw *readWriter) Write(p []byte) (n int, err error) {
 
 func (rw *readWriter) Close() error {
 	verifhook.At("rw.close.enter")
+	rw.m.Lock()
 	rw.closed.Store(true)
+	rw.m.Unlock()
 	verifhook.At("rw.close.beforeBroadcast")
 	rw.cv.Broadcast()
 	verifhook.At("rw.close.beforeWait")
